@@ -657,6 +657,8 @@ def is_hashable_desc(x: dict) -> bool:
     if t == "inst":
         if x["cls"]["kind"] == 2:
             return all(is_hashable_desc(y) for y in x["vals"])
+        if x["cls"]["kind"] == 1:   # frozen dataclass: hash of the field tuple
+            return x["cls"]["hashable"] and all(is_hashable_desc(y) for y in x["vals"])
         return x["cls"]["hashable"]
     if t == "sub":
         return is_hashable_desc(x["v"])
